@@ -550,6 +550,27 @@ func (x *Exec) addrOf(e *ast.UnaryExpr, st *State) Value {
 			}
 		}
 	}
+	if ix, ok := unparen(e.X).(*ast.IndexExpr); ok && x.coarse {
+		// &s[i] of a slice of structs (coarse units): a fresh cell holding the
+		// element's current value. Reads through the pointer see the element;
+		// a write through it would not reach the slice, so the unit is
+		// rejected if it assigns through such a pointer (see assignField).
+		if su, ok := x.info.TypeOf(ix.X).Underlying().(*types.Slice); ok {
+			if _, isStruct := su.Elem().Underlying().(*types.Struct); isStruct {
+				ev := x.index(ix, st)
+				if _, isSt := ev.(St); isSt {
+					p := x.alloc(st, "elem")
+					x.heapStoreStruct(st, su.Elem(), p, ev)
+					if x.elemCells == nil {
+						x.elemCells = map[*Term]bool{}
+					}
+					x.elemCells[p] = true
+					x.assumes["pointers to slice elements ("+x.src(e)+") are only read through"] = true
+					return Sc{p}
+				}
+			}
+		}
+	}
 	x.abstr["address-of "+x.src(e)] = true
 	p := x.freshTerm("addr", IntSort)
 	st.add(Neq(p, IntC(0)))
@@ -1335,6 +1356,10 @@ func (x *Exec) storeField(l *ast.SelectorExpr, v Value, st *State) {
 		h := vals[i]
 		if _, ok := h.t.Underlying().(*types.Pointer); ok {
 			p := x.scalarOf(h.val, h.t)
+			if x.elemCells[p] {
+				x.fail(l.Pos(), "unsupported: assignment through a pointer to a slice element (%s)", x.src(l))
+				return
+			}
 			x.nilCheck(st, p, l)
 			s := steps[i]
 			lay := x.layout(s.f.Type())
